@@ -68,11 +68,16 @@ def run(ctx):
                 # planning code modelled in lean/PM/RangeOps.lean, Fitter.lean, FillOrder.lean: exact, including "the code raises"
                 if rangeplan.answer(out) != exp:
                     ctx.mismatch(op, replay, exp, out)
+                if op == "fitGuards":
+                    # relational: the model's guards true => the real replace_step neither raised nor hung
+                    rangeplan.check_fit_guards(ctx, replay, out)
                 continue
             if out.get("ok") != exp:
                 ctx.mismatch(op, replay, "recorded document" if op == "apply" else exp, out if ("err" in out or op != "apply") else "different document")
         del reqs[:], metas[:]
 
+    # the divergence example of Props/C11.lean on the real code (the loop of Fitter.fit does not end) and in the model (outOfFuel)
+    rangeplan.tie_divergence_example(ctx, reqs, metas)
     fam = schemas.family()
     for si in range(ctx.budget(18, 80)):
         if len(reqs) >= 15000:
@@ -100,7 +105,9 @@ def run(ctx):
                 rangeplan.tie_delete_range(ctx, info, d, f, t, reqs, metas)
                 if bundled:
                     # the Fitter itself (lean/PM/Fitter.lean): the step replace_step emits for the request, exactly
-                    rangeplan.tie_replace_step(ctx, info, d, f, t, req, reqs, metas)
+                    rst = rangeplan.tie_replace_step(ctx, info, d, f, t, req, reqs, metas)
+                    # the guards of the totality theorems (Props/C11.lean), exactly, and: guard true => it did not raise
+                    rangeplan.tie_fit_guards(ctx, info, d, f, t, req, rst, reqs, metas)
                     if name in ("delete_range", "delete"):
                         # delete_range as a whole (widening + Fitter): the recorded step, exactly
                         rangeplan.tie_delete_range_step(ctx, info, d, f, t, reqs, metas)
